@@ -56,4 +56,9 @@ TEXT = {
   "note": "Metamorphic oracle (no reference semantics needed); three arguments per word from 13 value classes, so words of arity > 3 only see their type-error paths.",
   "technique": "metamorphic twin-execution monitor (tagged vs untagged arguments) over the whole dictionary + model-based monitor for the tag words",
  },
+ "C10": {
+  "level": "Exploration: interpreter histories with a source that is rejected at build time (any combination of unclosed structures, 28 kinds of failing token, trailing text with side effects) are compared probe by probe with a twin that never saw the rejected source; the dump hook must show the interpreter unchanged by the rejection; sources failing at run time must never run again. Both submission styles, plus sessions typed into the real REPL binary.",
+  "note": "Twin is rebuilt by replaying the history in a fresh interpreter (does not rely on clone). Error texts are compared without source names.",
+  "technique": "twin-execution monitor (history with vs without the rejected source) + invariant at the dump hook + REPL sessions over stdin",
+ },
 }
